@@ -6,6 +6,7 @@ import struct
 
 from engine.cfg import CFG, normalise_compare, atoms
 from engine.model import src, stmt_key, dotted, AnalysisError
+from engine import pat
 from engine.util import own_nodes, calls_with_nodes, where, with_exprs
 
 RULES = {
@@ -29,11 +30,12 @@ def run(model, rep, tier):
     rep.check(okk, "R-03.1", wh.qualname, where(wh, wh.node), "header = !HHHHHH id, flags, counts[0..3]", f"header is packed as {[(p[1], p[2]) for p in pk]}", stmt="header-write")
     rd = model.func("dns.message._WireReader.read")
     t = " ".join(src(rd.node).split())
-    okk = "(id, flags, qcount, ancount, aucount, adcount) = self.parser.get_struct('!HHHHHH')" in t.replace("id, flags, qcount, ancount, aucount, adcount =", "(id, flags, qcount, ancount, aucount, adcount) =")
+    eh = pat.Env()
+    okk = pat.has(rd.node, "(__id, __flags, __qd, __an, __ns, __ar) = self.parser.get_struct('!HHHHHH')", eh)
     rep.check(okk, "R-03.1", rd.qualname, where(rd, rd.node), "header read as !HHHHHH id, flags, qd, an, ns, ar", "header unpacking changed", stmt="header-read")
     calls = [(src(c.func), [src(a) for a in c.args]) for c in ast.walk(rd.node) if isinstance(c, ast.Call) and src(c.func) in ("self._get_question", "self._get_section")]
-    want = [("self._get_question", ["MessageSection.QUESTION", "qcount"]), ("self._get_section", ["MessageSection.ANSWER", "ancount"]),
-            ("self._get_section", ["MessageSection.AUTHORITY", "aucount"]), ("self._get_section", ["MessageSection.ADDITIONAL", "adcount"])]
+    want = [("self._get_question", ["MessageSection.QUESTION", eh.get("__qd")]), ("self._get_section", ["MessageSection.ANSWER", eh.get("__an")]),
+            ("self._get_section", ["MessageSection.AUTHORITY", eh.get("__ns")]), ("self._get_section", ["MessageSection.ADDITIONAL", eh.get("__ar")])]
     rep.check(calls == want, "R-03.1", rd.qualname, where(rd, rd.node), "each count drives its own section, in wire order", f"section/count pairing is {calls}", stmt="count-section-pairing")
     rm = model.module("dns.renderer")
     ms = model.cls("dns.message.MessageSection")
@@ -45,26 +47,31 @@ def run(model, rep, tier):
     pk = _packs(aq)
     gq = model.func("dns.message._WireReader._get_question")
     tq = " ".join(src(gq.node).split())
-    okk = len(pk) == 1 and pk[0][1] == "!HH" and pk[0][2] == ["rdtype", "rdclass"] and "(rdtype, rdclass) = self.parser.get_struct('!HH')" in tq.replace("rdtype, rdclass = self", "(rdtype, rdclass) = self") \
-        and "qname = self.parser.get_name(self.message.origin)" in tq
+    eq = pat.Env()
+    okk = len(pk) == 1 and pk[0][1] == "!HH" and pk[0][2] == ["rdtype", "rdclass"] and pat.has(gq.node, "(__t, __c) = self.parser.get_struct('!HH')", eq) \
+        and pat.has(gq.node, "__q = self.parser.get_name(self.message.origin)", eq) and pat.has_expr(gq.node, "self.message._parse_rr_header(___sn, __q, __c, __t)", eq)
     rep.check(okk, "R-03.1", f"{aq.qualname} ~ {gq.qualname}", where(gq, gq.node), "question = name | !HH type, class on both sides", "question layout differs between writer and reader", stmt="question-layout")
     tw = model.func("dns.rdataset.Rdataset.to_wire")
     pk = _packs(tw)
     fm = sorted((p[1], tuple(p[2])) for p in pk)
-    okk = fm == sorted([("!HHIH", ("self.rdtype", "rdclass", "0", "0")), ("!HHI", ("self.rdtype", "rdclass", "self.ttl"))])
+    ew = pat.Env()
+    okk = len(pk) == 2 and pat.has_expr(tw.node, "struct.pack('!HHIH', self.rdtype, __c, 0, 0)", ew) and pat.has_expr(tw.node, "struct.pack('!HHI', self.rdtype, __c, self.ttl)", ew)
     rep.check(okk, "R-03.1", tw.qualname, where(tw, tw.node), "RR header = !HHI type, class, ttl (+2-octet length prefix); empty set = one !HHIH RR with ttl 0, rdlength 0", f"RR header packing is {fm}", stmt="rr-header-write")
     pl = [w for n in ast.walk(tw.node) if isinstance(n, ast.With) for w in n.items if src(w.context_expr) == "prefixed_length(file, 2)"]
     rep.check(len(pl) == 1, "R-03.1", tw.qualname, where(tw, tw.node), "RDLENGTH is a 2-octet prefix back-patched around the RDATA", "RDLENGTH prefix is not `prefixed_length(file, 2)`", stmt="rdlength-write")
     gs = model.func("dns.message._WireReader._get_section")
     tg = " ".join(src(gs.node).split())
-    okk = "(rdtype, rdclass, ttl, rdlen) = self.parser.get_struct('!HHIH')" in tg.replace("rdtype, rdclass, ttl, rdlen = self", "(rdtype, rdclass, ttl, rdlen) = self") and "absolute_name = self.parser.get_name()" in tg
+    es = pat.Env()
+    okk = pat.has(gs.node, "__an = self.parser.get_name()", es) and pat.has(gs.node, "(__t, __c, __ttl, __len) = self.parser.get_struct('!HHIH')", es)
     rep.check(okk, "R-03.1", gs.qualname, where(gs, gs.node), "RR header read as name | !HHIH type, class, ttl, rdlength", "RR header unpacking changed", stmt="rr-header-read")
     rep.check(struct.calcsize("!HHI") + 2 == struct.calcsize("!HHIH"), "R-03.1", "struct", "-", "!HHI + 2-octet prefix has the size of !HHIH", "format sizes disagree", stmt="sizes", )
     pf = model.func("dns._render_util.prefixed_length")
     tp = " ".join(src(pf.node).split())
-    rep.check("output.write(b'\\x00' * length_length)" in tp and "length = end - start" in tp and "output.seek(start - length_length)" in tp and "output.write(length.to_bytes(length_length, 'big'))" in tp and "finally: output.seek(end)" in tp,
+    ep = pat.Env()
+    rep.check(pat.has(pf.node, "output.write(b'\\x00' * length_length)\n__start = output.tell()\nyield\n__end = output.tell()\n__n = __end - __start", ep) and pat.has(pf.node, "output.seek(__start - length_length)", ep)
+              and pat.has_expr(pf.node, "output.write(__n.to_bytes(length_length, 'big'))", ep) and pat.has(pf.node, "try:\n    ...\nfinally:\n    output.seek(__end)", ep),
               "R-03.1", pf.qualname, where(pf, pf.node), "length prefix = big-endian count of the octets written in the body, back-patched, position restored", "prefixed_length changed", stmt="prefixed-length")
-    rep.check("with self.parser.restrict_to(rdlen):" in tg and "if rdlen > 0: raise dns.exception.FormError" in tg, "R-03.1", gs.qualname, where(gs, gs.node), "RDATA parsed within exactly rdlength octets; empty form requires rdlength 0",
+    rep.check(pat.has(gs.node, "with self.parser.restrict_to(__len):", es) and pat.has(gs.node, "if __len > 0:\n    raise dns.exception.FormError", es), "R-03.1", gs.qualname, where(gs, gs.node), "RDATA parsed within exactly rdlength octets; empty form requires rdlength 0",
               "RDATA is no longer confined to rdlength", stmt="rdlength-read")
 
     # ---------------------------------------------------------------- R-03.2
@@ -83,13 +90,14 @@ def run(model, rep, tier):
                 val = src(st.value)
                 tws = [m for m in cfg.nodes if isinstance(m.ast, (ast.With,)) and any(src(i.context_expr) == "self._track_size()" for i in m.ast.items)]
                 okk = (not inside) and bool(tws) and cfg.dominated_by_set(n.id, [w.id for w in tws])
-                if val == "n":
-                    defs = [m for m in cfg.nodes if isinstance(m.ast, ast.Assign) and src(m.ast.targets[0]) == "n"]
+                if isinstance(st.value, ast.Name):
+                    defs = [m for m in cfg.nodes if isinstance(m.ast, ast.Assign) and src(m.ast.targets[0]) == val]
                     okk = okk and len(defs) == 1 and ".to_wire(" in src(defs[0].ast.value) and "self._track_size()" in with_exprs(defs[0])
                 elif val != "1":
                     okk = False
                 rep.check(okk, "R-03.2", f.qualname, where(f, st), f"`{stmt_key(st)}` after the tracked block, by the number of RRs written",
-                          f"`{stmt_key(st)}` is inside the tracked block or not the block's RR count: a rolled-back record set is still counted (header counts exceed the records present)", stmt=stmt_key(st))
+                          f"`{stmt_key(st)}` is inside the tracked block or not the block's RR count: a rolled-back record set is still counted (header counts exceed the records present)",
+                          stmt="count " + src(st.target) + (" by the RRs written" if isinstance(st.value, ast.Name) else " by " + val))
     rep.floor("R-03.2", n_counts, 4)
     cfg = CFG(tw.node, implicit_exc=False)
     rets = [n for n in cfg.nodes if isinstance(n.ast, ast.Return)]
@@ -101,8 +109,8 @@ def run(model, rep, tier):
         many = [r for r in rets if src(r.ast.value) == "len(self)"][0]
         okk = cfg.edge_dominated(one.id, {(emp[0].id, "t")}) and cfg.edge_dominated(many.id, {(emp[0].id, "f")})
         loops = [n for n in cfg.nodes if n.kind == "for"]
-        okk = okk and len(loops) == 1 and src(loops[0].ast.iter) == "l" and cfg.dominated_by_set(many.id, [loops[0].id])
-        ld = sorted(src(n.value) for n in ast.walk(tw.node) if isinstance(n, ast.Assign) and src(n.targets[0]) == "l")
+        okk = okk and len(loops) == 1 and isinstance(loops[0].ast.iter, ast.Name) and cfg.dominated_by_set(many.id, [loops[0].id])
+        ld = sorted(src(n.value) for n in ast.walk(tw.node) if isinstance(n, ast.Assign) and okk and src(n.targets[0]) == src(loops[0].ast.iter))
         okk = okk and ld == ["list(self)", "self"]
     rep.check(okk, "R-03.2", tw.qualname, where(tw, tw.node), "returns 1 for the single class/type-only RR and len(self) after writing one RR per record", "the returned RR count does not match the RRs written", stmt="returns-count")
 
@@ -117,12 +125,13 @@ def run(model, rep, tier):
                 n_tw += 1
                 i = args.index("self.output")
                 comp = args[i + 1] if len(args) > i + 1 else "None"
-                okk = comp in ("self.compress", "None", "compress")
-                if comp == "compress":
-                    defs = sorted(src(n.value) for n in ast.walk(f.node) if isinstance(n, ast.Assign) and src(n.targets[0]) == "compress")
+                local = comp.isidentifier() and comp not in ("None",) and comp not in f.params()
+                okk = comp in ("self.compress", "None") or local
+                if local:
+                    defs = sorted(src(n.value) for n in ast.walk(f.node) if isinstance(n, ast.Assign) and src(n.targets[0]) == comp)
                     okk = defs == ["None", "self.compress"]
                 rep.check(okk, "R-03.3", f.qualname, where(f, c), f"to_wire(self.output, {comp}, ...): the renderer's own table (or none)",
-                          f"to_wire receives `{comp}` as compression table together with the renderer's buffer: pointers would refer to offsets of another buffer", stmt=f"to_wire {comp}")
+                          f"to_wire receives `{comp}` as compression table together with the renderer's buffer: pointers would refer to offsets of another buffer", stmt="to_wire " + ("<local table>" if local else comp))
     rep.floor("R-03.3", n_tw, 4)
     stores = []
     for f in model.all_functions():
@@ -141,7 +150,7 @@ def run(model, rep, tier):
                     comp = args[i + 1] if len(args) > i + 1 else "None"
                     rep.check(comp == "compress", "R-03.3", qn, where(f, c), "file and compress are passed through together", f"`{src(c)[:60]}` does not pass the caller's table with the caller's buffer", stmt=f"{src(c.func)} passes {comp}")
     tsr = model.func("dns.message.Message._compute_tsig_reserve")
-    rep.check("self.tsig.to_wire(f)" in src(tsr.node), "R-03.3", tsr.qualname, where(tsr, tsr.node), "size probes use a private buffer and no table", "a size probe shares the compression table", stmt="probe-no-table")
+    rep.check(pat.has(tsr.node, "__f = io.BytesIO()\nself.tsig.to_wire(__f)"), "R-03.3", tsr.qualname, where(tsr, tsr.node), "size probes use a private buffer and no table", "a size probe shares the compression table", stmt="probe-no-table")
 
     # ---------------------------------------------------------------- R-03.4
     wr = model.cls("dns.message._WireReader")
@@ -150,17 +159,19 @@ def run(model, rep, tier):
             if isinstance(n, ast.Call) and isinstance(n.func, ast.Attribute) and n.func.attr in ("append", "insert", "extend") and src(n.func.value) in ("section", "self.message.answer", "self.message.authority", "self.message.additional", "self.message.question"):
                 rep.bad("R-03.4", f.qualname, where(f, n), "the reader appends to a section directly, bypassing find_rrset and the index", stmt=src(n.func))
     frs = [c for c in ast.walk(gs.node) if isinstance(c, ast.Call) and src(c.func) == "self.message.find_rrset"]
-    okk = len(frs) == 1 and [" ".join(src(a).split()) for a in frs[0].args] == ["section", "name", "rdclass", "rdtype", "covers", "deleting", "True", "force_unique"]
+    okk = len(frs) == 1 and pat.match(pat.parse_expr("self.message.find_rrset(__sec, __name, __c, __t, __cov, __del, True, __fu)"), frs[0], es) and len({es[k] for k in ("__sec", "__name", "__c", "__t", "__cov", "__del", "__fu")}) == 7
     rep.check(okk, "R-03.4", gs.qualname, where(gs, gs.node), "records go through find_rrset(section, name, class, type, covers, deleting, create=True, force_unique)", "the find_rrset call in the reader changed", stmt="find-rrset-args")
     fr = model.func("dns.message.Message.find_rrset")
     t = " ".join(src(fr.node).split())
-    rep.check("key = (section_number, name, rdclass, rdtype, covers, deleting)" in t and "self.index[key] = rrset" in t and "rrset = self.index.get(key)" in t and "section.append(rrset)" in t, "R-03.4", fr.qualname, where(fr, fr.node),
+    ei = pat.Env()
+    rep.check(pat.has(fr.node, "__key = (__sn, name, rdclass, rdtype, covers, deleting)", ei) and pat.has(fr.node, "self.index[__key] = __rr", ei) and pat.has(fr.node, "__rr = self.index.get(__key)", ei)
+              and pat.has(fr.node, "section.append(__rr)", ei), "R-03.4", fr.qualname, where(fr, fr.node),
               "six-component key; created RRsets are appended and indexed under the same key", "find_rrset key/index handling changed", stmt="index-key")
     for f in model.all_functions():
         for n in ast.walk(f.node):
             if isinstance(n, ast.Subscript) and isinstance(n.ctx, (ast.Store, ast.Del)) and isinstance(n.value, ast.Attribute) and n.value.attr == "index" and f.module.name in ("dns.message", "dns.update"):
                 rep.check(f.qualname == "dns.message.Message.find_rrset", "R-03.4", f.qualname, where(f, n), "Message.index written in find_rrset", "Message.index is written outside find_rrset", stmt="index-write")
-    rep.check("if ttl > 2147483647: ttl = 0" in tg, "R-03.4", gs.qualname, where(gs, gs.node), "TTLs with the top bit set are read as 0 (RFC 2181 8)", "TTL clamping changed", stmt="ttl-clamp")
+    rep.check(pat.has(gs.node, "if __ttl > 2147483647:\n    __ttl = 0", es), "R-03.4", gs.qualname, where(gs, gs.node), "TTLs with the top bit set are read as 0 (RFC 2181 8)", "TTL clamping changed", stmt="ttl-clamp")
     # header hooks called by the readers may only use state the reader populated: a message built by the reader is
     # constructed as factory(id=id), so attributes derived from other constructor parameters hold defaults
     msg = model.cls("dns.message.Message")
